@@ -116,6 +116,7 @@ async def _main_worker(sim, sc, out):
     limit_hit = {}
 
     extra_jobs = []
+    pending_arrival = []  # arrivals scheduled but not enqueued yet: the two-worker drain loops do not end before them
 
     def on_end(jid, n, node, how):
         if len(state.ends) == M and "at" not in limit_hit:
@@ -145,10 +146,12 @@ async def _main_worker(sim, sc, out):
                   "beh": [{"do": "return", "dur_us": 0}]}
 
             def arrive2():
+                pending_arrival.clear()
                 jobs["jx"] = xj
                 extra_jobs.append(sim.loop.spawn("w", workload.producer(world, conn, [xj], enq)))
                 sim.count("arrival-just-before-the-limit")
 
+            pending_arrival.append(1)
             sim.loop.call_at_us(sim.clock.us + d - la.get("lead_us", 500), arrive2)
 
     state.on_start = on_start
@@ -166,8 +169,8 @@ async def _main_worker(sim, sc, out):
         # everything has been executed)
         for _ in range(240):
             await asyncio.sleep(0.25)
-            if wt.done() or all(any(e[2] == jid and e[4] != "cancelled" for e in state.ends) or j.get("ttl_s")
-                                for jid, j in jobs.items()):
+            if wt.done() or (not pending_arrival and all(any(e[2] == jid and e[4] != "cancelled" for e in state.ends)
+                                                         or j.get("ttl_s") for jid, j in jobs.items())):
                 break
         if not wt.done():
             sim.loop.deliver_signal("w", __import__("signal").SIGINT)
@@ -187,7 +190,8 @@ async def _main_worker(sim, sc, out):
         # let the other worker drain the queues, then stop it
         for _ in range(400):
             await asyncio.sleep(0.25)
-            if all(any(e[2] == jid and e[4] != "cancelled" for e in state.ends) or j.get("ttl_s") for jid, j in jobs.items()):
+            if not pending_arrival and all(any(e[2] == jid and e[4] != "cancelled" for e in state.ends) or j.get("ttl_s")
+                                           for jid, j in jobs.items()):
                 break
         sim.loop.deliver_signal("w2", _signal.SIGINT)
         try:
